@@ -5,7 +5,8 @@
      P kw kb n p1 s1 ..               pushState        O b0 .. b63      popState (board after)
      S sq old new                     setPiece         F clear b0..b63  forceFullEval (board after)
      C kw kb n p1 s1 ..               computeL1WB      D wtm clip       print the state line
-   and evaluation-cache scripts:  KT (new table)  KV <historyHash> <contempt> <fresh value>
+   evaluation-cache scripts:  KT (new table)  KV <historyHash> <contempt> <fresh value>
+   and unit-level kernel references:  KC <256 lanes>   KA <256 lanes> ; <adds> ; <subs>
    Every D prints one line in the format of the harness' "R" lines; the ghost semantics (gstep)
    runs alongside and an op stream that is not consistent with a board history is flagged. *)
 open Nn_model
@@ -100,6 +101,16 @@ let () =
             Buffer.add_string buf (if clip = "1" then string_of_int (hash_list (l1OutClipped !nn (wtm = "1") s)) else "-");
             Buffer.add_char buf '\n');
          if Buffer.length buf > 60000 then (print_string (Buffer.contents buf); Buffer.clear buf)
+       | "KC" :: lanes ->           (* scaleClipPack on one accumulator: model of the loop and the spec *)
+         let l = List.map z_of_int (ints_of lanes) in
+         let a = List.map clipLaneG l and b = List.map (fun x -> scaleClipSpec (s16val x)) l in
+         Buffer.add_string buf ("K scp " ^ string_of_int (hash_list b) ^ (if a = b then "" else " MODEL<>SPEC") ^ "\n")
+       | "KA" :: rest ->            (* addSubWeights: lanes ; adds ; subs  (rows from the W file) *)
+         let rec split acc = function ";" :: r -> (List.rev acc, r) | x :: r -> split (x :: acc) r | [] -> (List.rev acc, []) in
+         let (l, r1) = split [] rest in
+         let (ad, sb) = split [] r1 in
+         let zl x = List.map z_of_int (ints_of x) in
+         Buffer.add_string buf ("K asw " ^ string_of_int (hash_list (addSub16 !nn wraw (zl l) (zl ad) (zl sb))) ^ "\n")
        | "KT" :: _ -> table := emptyTable
        | "KV" :: hk :: c :: fresh :: _ ->
          let (v, t') = evalPosM evalKeyContemptMul !table (z_of_string hk) (z_of_int (int_of_string c)) (z_of_int (int_of_string fresh)) in
